@@ -18,7 +18,7 @@ RULE = (
   "frame (frame^T of MJWarp's own d.contact.frame for that contact, itself within 1e-3 of MuJoCo's by the matching), 2e-4 relative; requested ids >= nacon must leave the output untouched; evaluation = one world; non-trivial = a condim>=3 contact with non-zero tangential force, or a contact with non-zero contact.adhesion"
 )
 ASSUMPTIONS = ["mujoco.mj_contactForce on MuJoCo's contact/efc bookkeeping is the reference decoder", "worlds whose contact/row sets differ from MuJoCo's are skipped (counted)"]
-BUDGET = {"quick": dict(examples=400, seconds=150, workers=16), "thorough": dict(examples=10000, seconds=1500, workers=16)}
+BUDGET = {"quick": dict(examples=400, seconds=420, workers=16), "thorough": dict(examples=10000, seconds=1500, workers=16)}
 
 
 def strategy(tier):
